@@ -13,6 +13,8 @@ func checkC09(r *Run) {
 	ruleA1(r, p)
 	ruleA2(r, p)
 	ruleA18(r, p)
+	ruleA12Reset(r, p, "newEvent", "Event") // a recycled Event/Array starts empty: no value of a dropped event is carried into the next (C05's rule)
+	ruleA12Reset(r, p, "Arr", "Array")
 	ruleFloatWidth(r, p) // floats: head byte, width and the three non-finite bit patterns
 	ruleA6(r, p, []string{cborRel})
 	if r.Tier == "thorough" {
